@@ -97,18 +97,100 @@ let rec cexpr_of x = match lst x with
   | [A "l"; a; ne] -> T.CList (cexpr_of a, get_bool ne)
   | _ -> failwith "cexpr"
 
+(* c21.types: per range type, first the validator that is universal (TypesSym.check_type_any: symbolic for
+   bodies with lists of any length, enumeration for list-free bodies); types it cannot decide (lists AND
+   FetchAfter chains / shared node types) fall back to the enumeration with at most 2 repetitions per list *)
+let sym_universal = ref 0 and sym_bounded = ref 0
+
+(* number of child sequences Types.child_seqs would enumerate (capped) *)
+let rec nseqs rep e =
+  let cap x = if x > 1000000 then 1000000 else x in
+  match e with
+  | T.CEmpty | T.CNode _ -> 1
+  | T.CSeq (a, b) -> cap (nseqs rep a * nseqs rep b)
+  | T.CChoice (a, b) -> cap (nseqs rep a + nseqs rep b)
+  | T.COpt a -> cap (1 + nseqs rep a)
+  | T.CList (a, _) -> let x = nseqs rep a in
+      let rec pow k acc tot = if k = 0 then tot else let acc = cap (acc * x) in pow (k - 1) acc (cap (tot + acc)) in
+      pow rep 1 1
+let () = if Sys.getenv_opt "C21_SYMSTAT" <> None then
+  at_exit (fun () -> Printf.eprintf "c21.types: %d types validated universally, %d by bounded enumeration only\n" !sym_universal !sym_bounded)
+
 let () = Reg.register "c21.types" (fun inp _out ->
   let (types, bodies) = (match lst inp with [t; b] -> (t, lst b) | _ -> failwith "case") in
   let (rts, cats, inj) = parse_types types in
-  let run cats =
+  let run count cats =
     SL.map2 (fun fs bs ->
       let bs = SL.map cexpr_of (lst bs) in
       if bs = [] then true   (* a reported token: no accessors *)
-      else T.check_type (SL.map mcat cats) (SL.map mfield fs) (n_of_int inj) (nat_of_int 2) bs) rts bodies in
-  let res = run cats in
+      else begin
+        let mc = SL.map mcat cats and mf = SL.map mfield fs in
+        (* the enumeration is only attempted when the number of child sequences is moderate; a body that the
+           symbolic validator rejects and that is too large to enumerate counts as not validated *)
+        let small = SL.fold_left (fun acc b -> acc + nseqs 2 b) 0 bs <= 20000 in
+        if not small then
+          (if SL.for_all (fun b -> TypesSym.check_sym mc mf (n_of_int inj) b) bs then (if count then incr sym_universal; true) else false)
+        else if TypesSym.check_type_any mc mf (n_of_int inj) (nat_of_int 2) bs then (if count then incr sym_universal; true)
+        else if T.check_type mc mf (n_of_int inj) (nat_of_int 2) bs then (if count then incr sym_bounded; true)
+        else false
+      end) rts bodies in
+  let res = run true cats in
   let verdict =
     if SL.for_all (fun b -> b) res then "ok"
-    else if SL.for_all (fun b -> b) (run (SL.map (fun (ts, _) -> (ts, true)) cats))
+    else if SL.for_all (fun b -> b) (run false (SL.map (fun (ts, _) -> (ts, true)) cats))
     then "bad:accessor-panics-absent-child-of-category-named-TokenSet"
     else "bad:inferred-fields-do-not-fit-some-child-sequence" in
   (L (SL.map put_bool res), verdict))
+
+(* ---------- c21.infer: the step-by-step model of syntax/types.go (Infer.extract_types) ---------- *)
+module I = Infer
+
+let get_str x = SL.map get_n (lst x)
+let put_str s = L (SL.map put_n s)
+
+let rec iexpr_of x = match lst x with
+  | [A "e"] -> I.XEmpty
+  | [A "k"] -> I.XLook
+  | [A "r"; s] -> I.XRef (get_nat s)
+  | [A "a"; n; e] -> I.XArrow (get_str n, iexpr_of e)
+  | A "q" :: subs -> I.XSeq (SL.map iexpr_of subs)
+  | A "c" :: subs -> I.XChoice (SL.map iexpr_of subs)
+  | [A "s"; n; e] -> I.XAssign (get_str n, iexpr_of e)
+  | [A "p"; n; e] -> I.XAppend (get_str n, iexpr_of e)
+  | [A "o"; e] -> I.XOpt (iexpr_of e)
+  | [A "l"; e; sep; oom] -> I.XList (iexpr_of e, iexpr_of sep, get_bool oom)
+  | [A "x"; e] -> I.XPrec (iexpr_of e)
+  | _ -> failwith "iexpr"
+
+let imodel_of x = match lst x with
+  | [nterms; nts; inputs; cats; toks] ->
+    { I.m_nterms = get_nat nterms;
+      I.m_nonterms = SL.map iexpr_of (lst nts);
+      I.m_inputs = SL.map (fun i -> match lst i with [n; s] -> (get_nat n, get_bool s) | _ -> failwith "input") (lst inputs);
+      I.m_cats = SL.map get_str (lst cats);
+      I.m_tokens = SL.map (fun t -> match lst t with [k; n] -> (get_nat k, get_str n) | _ -> failwith "token") (lst toks) }
+  | _ -> failwith "imodel"
+
+let () = Reg.register "c21.infer" (fun inp out ->
+  let m = imodel_of inp in
+  let t = I.extract_types m in
+  let rts = SL.map2 (fun n fs ->
+    L [put_str n; L (SL.map (fun f -> L [put_str f.I.rf_name; L (SL.map put_str f.I.rf_sel); put_z f.I.rf_after;
+                                          put_bool f.I.rf_req; put_bool f.I.rf_list]) fs)]) t.I.t_names t.I.t_fields in
+  let cats = SL.map (fun (n, ts) -> L [put_str n; L (SL.map put_str ts)]) t.I.t_cats in
+  let model = L [L rts; L cats; L [A "err"; put_bool t.I.t_err_assign; put_bool t.I.t_err_cats; put_bool t.I.t_err_overlap]] in
+  (* oracle on the implementation's output, independent of the model: structural sanity of the inferred types *)
+  let verdict = (match out with
+    | L [L rts; L _; L (A "err" :: _)] ->
+      let ok = SL.for_all (fun rt -> match rt with
+        | L [_; L fs] ->
+          let n = SL.length fs in
+          let rec chk i = function
+            | [] -> true
+            | L [_; L sel; after; _; _] :: r -> let a = get_int after in sel <> [] && a >= -1 && a < i && chk (i + 1) r
+            | _ -> false in
+          ignore n; chk 0 fs
+        | _ -> false) rts in
+      if ok then "ok" else "bad:inferred-field-has-empty-selector-or-forward-fetch-after"
+    | _ -> "bad:extract-types-output-malformed") in
+  (model, verdict))
